@@ -17,22 +17,35 @@ def run(cmd, cwd=None, timeout=3000):
     return p.returncode, p.stdout
 
 
-st = run('git -C /repo status --porcelain --untracked-files=no')[1].strip()
-assert not st, 'repo not clean: ' + st
+# The change is applied to a scratch worktree of /repo (never to /repo itself, so that other work going on against
+# /repo is not disturbed); the checks are pointed at it with PHYLIB_REPO (harness/common.py), the demo and the
+# pinned tests with PYTHONPATH.  SEED_IN_REPO=1 applies it to /repo instead (git apply / checkout).
+IN_REPO = os.environ.get('SEED_IN_REPO') == '1'
+if IN_REPO:
+    T = '/repo'
+    st = run('git -C /repo status --porcelain --untracked-files=no')[1].strip()
+    assert not st, 'repo not clean: ' + st
+else:
+    T = '/tmp/evalwt_%s_%s' % (pid, name[:12])
+    run('git -C /repo worktree remove --force %s' % T)
+    rc, out = run('git -C /repo worktree add -f --detach %s HEAD' % T)
+    assert rc == 0, out
+    env['PYTHONPATH'] = T
+    env['PHYLIB_REPO'] = T
 meta = dict(property=pid, name=name, repo_head=run('git -C /repo rev-parse HEAD')[1].strip(), ran=[])
-rc, out = run('/venv/bin/python %s' % (src / 'demo.py'), cwd='/repo')
+rc, out = run('/venv/bin/python %s' % (src / 'demo.py'), cwd=T)
 meta['demo_clean_rc'] = rc
 meta['ran'].append('demo on clean tree: rc=%d' % rc)
-rc, out = run('git -C /repo apply %s' % (src / 'patch.diff'))
+rc, out = run('git -C ' + T + ' apply %s' % (src / 'patch.diff'))
 assert rc == 0, out
 try:
-    rc, out = run('/venv/bin/python %s' % (src / 'demo.py'), cwd='/repo')
+    rc, out = run('/venv/bin/python %s' % (src / 'demo.py'), cwd=T)
     meta['demo_patched_rc'] = rc
     meta['demo_patched_tail'] = out[-600:]
     meta['ran'].append('demo on patched tree: rc=%d' % rc)
-    rc, out = run('/venv/bin/python -m pytest -q -p no:cacheprovider --timeout=900 --continue-on-collection-errors phylib/electrode phylib/stats/tests/test_ccg.py phylib/utils 2>&1 | tail -1', cwd='/repo')
+    rc, out = run('/venv/bin/python -m pytest -q -p no:cacheprovider --timeout=900 --continue-on-collection-errors phylib/electrode phylib/stats/tests/test_ccg.py phylib/utils 2>&1 | tail -1', cwd=T)
     meta['pinned_tests'] = out.strip()
-    rc2, out2 = run('/venv/bin/python -m pytest -q -p no:cacheprovider --timeout=900 --continue-on-collection-errors phylib 2>&1 | tail -1', cwd='/repo')
+    rc2, out2 = run('/venv/bin/python -m pytest -q -p no:cacheprovider --timeout=900 --continue-on-collection-errors phylib 2>&1 | tail -1', cwd=T)
     meta['all_tests'] = out2.strip()
     meta['checks'] = {}
     for p in [pid] + extra_pids:
@@ -42,7 +55,9 @@ try:
         meta['checks'][p] = dict(rc=rc, lines=lines[:8], wall_s=round(time.time() - t0, 1))
         meta['ran'].append('./check %s --tier quick on patched tree: rc=%d' % (p, rc))
 finally:
-    run('git -C /repo checkout -- .')
+    run('git -C %s checkout -- .' % T)
+    if not IN_REPO:
+        run('git -C /repo worktree remove --force %s' % T)
     for p in [pid] + extra_pids:
         run('git -C %s checkout -- evidence/%s.json' % (V, p))
 dst = V / 'seeded' / ('%s_%s' % (pid, name))
